@@ -522,7 +522,9 @@ def correspondence(ctx: Ctx):
               {**default_flags(), "recon": 5, "estimate_smaps": 0, "ssl": 1},
               {**default_flags(), "ssl": 1, "keep_acs": 1, "estimate_smaps": 0},
               {**default_flags(), "scaling_key": 3}):
-        yield _pipeline_case(ctx, rng, f, 2, 0, 6, 5, None, -13, 0.9, None, 0, False, "pipeline/malformed")
+        c = _pipeline_case(ctx, rng, f, 2, 0, 6, 5, None, -13, 0.9, None, 0, False, "pipeline/malformed")
+        if c is not None:
+            yield c
 
 
 # --------------------------------------------------------------------------------------------------
